@@ -7,7 +7,7 @@ WT=/tmp/cf/$PROP-$X
 OUT=$SRC/confirm.txt
 exec > $OUT 2>&1
 set -x
-git -C /repo worktree add -f --detach $WT HEAD || exit 1
+git -C /repo worktree add -f --detach $WT $(cat ${SEEDSRC:-/tmp/seed-out}/BASE 2>/dev/null || echo HEAD) || exit 1
 cd $WT
 # demo on the unmodified tree
 bash $SRC/build_and_run.sh $WT > $SRC/confirm-demo-clean.txt 2>&1; echo "DEMO_CLEAN_EXIT=$?"
